@@ -78,9 +78,10 @@ Definition mnet0 : mnet := mnet_of gnet0.
 (* Net2's (auth), (near), (fresh) for the datagram level, plus
    for A: the application passes a user callback or none to send() (the other icb constructors are
           internal to the connection); payloads of any size, fragmented or not;
-   for B, when it accepts a datagram: the message labels are as described at mwf, and processing
-   the datagram raises no exception (recv_msgs stops at the first exception: the messages behind a
-   handshake message whose verification fails are never looked at). *)
+   for B, when it accepts a datagram: the message labels are as described at mwf, and — if the
+   datagram carries a handshake-typed message — processing it raises no exception (recv_msgs stops
+   at the first exception: the messages behind a handshake message whose verification fails are never
+   looked at; datagrams without handshake messages never raise: MsgRecvP.recv_msgs_noraise). *)
 Definition user_icb (k : icb) : Prop := match k with INone | IUser _ => True | _ => False end.
 Definition user_x (x : ev) : Prop := match x with ESend _ _ k => user_icb k | _ => True end.
 
@@ -88,13 +89,15 @@ Definition user_x (x : ev) : Prop := match x with ESend _ _ k => user_icb k | _ 
 Definition big_id (e : env) (S : list (list byte * Z)) (id : Z) : Prop :=
   exists p, In (p, id) S /\ len p > e_max_payload e.
 
+Definition has_hs (ws : list wmsg) : bool := existsb (fun w => is_hs (w_type w)) ws.
+
 (* strict = false drops "processing raises no exception" (used to show that it cannot be dropped) *)
 Definition msg_ev (strict : bool) (e : env) (M : mnet) (vj : lev3) : Prop :=
   match fst (fst vj) with
   | NA x => user_x x
   | NB x => forall d, accepts (nB (g_net (m_g M))) x = Some d ->
               length (snd vj) = length (dg_msgs d) /\ mwf (m_st M) (combine (dg_msgs d) (snd vj)) /\
-              (strict = true -> raised (snd (step e (nB (g_net (m_g M))) x)) = false)
+              (strict = true -> has_hs (dg_msgs d) = true -> raised (snd (step e (nB (g_net (m_g M))) x)) = false)
   end.
 
 Definition wf3x_ev (strict : bool) (e : env) (M : mnet) (vj : lev3) : Prop :=
